@@ -80,7 +80,11 @@ func GenApiScript(prop string, seed uint64) *Scenario {
 	add(10, "isready")
 	n := rng.Range(3, 9)
 	for s := 0; s < n; s++ {
-		fen, moves, root := genRootFen(rng, 6)
+		termPct := 6
+		if prop == "C07" {
+			termPct = 40
+		}
+		fen, moves, root := genRootFen(rng, termPct)
 		st := add(gap(), "start")
 		st.Fen, st.Moves = fen, moves
 		l := &LimitSpec{}
